@@ -1,4 +1,5 @@
 import MpVerif.C18.Parse
+import MpVerif.C18.Trace
 import Std.Data.HashMap
 /-! Line driver for C18.  One line in, one line out; the part of a line after ` => ` (the
 implementation's answer) is ignored.
@@ -65,6 +66,20 @@ def doP (t : Tables) (toks : List String) : String :=
     let hs := ts.map (fun a => hashStr (hashX P a))
     " ".intercalate (eqs ++ hs)
 
+/-- `--arms`: labels of the model arms taken on this line (for the coverage note), or `bad-trace` if an
+instrumented copy disagrees with the model function -/
+def doArms (t : Tables) (toks : List String) : String :=
+  match parseAll (splitBar toks) with
+  | none => "bad-op"
+  | some ts =>
+    if ts.isEmpty || !(ts.all (fun e => (keys e).all t.has)) then "bad-op" else
+    let P := t.prims
+    let eq := ts.flatMap (fun a => ts.map (fun b => (equalT ieee a b, equalX ieee a b)))
+    let hs := ts.map (fun a => (hashT P a, hashX P a))
+    if eq.any (fun p => p.1.1 != p.2) || hs.any (fun p => p.1.1 != p.2) then "bad-trace" else
+    let labels := (eq.flatMap (fun p => p.1.2) ++ hs.flatMap (fun p => p.1.2)).eraseDups
+    " ".intercalate (labels.map (fun l => l.replace " " "_"))
+
 def step (t : Tables) (line : String) : Tables × String :=
   let toks := (line.trimAscii.toString.splitOn " ").takeWhile (· != "=>")
   match toks with
@@ -96,13 +111,17 @@ def step (t : Tables) (line : String) : Tables × String :=
   | "P" :: rest => (t, doP t rest)
   | _ => (t, "bad-op")
 
-partial def loop (h : IO.FS.Stream) (out : IO.FS.Stream) (t : Tables) : IO Unit := do
+partial def loop (arms : Bool) (h : IO.FS.Stream) (out : IO.FS.Stream) (t : Tables) : IO Unit := do
   let line ← h.getLine
   if line.isEmpty then return ()
-  let (t, s) := step t line
-  out.putStrLn s
-  loop h out t
+  let (t', s) := step t line
+  if arms then
+    match (line.trimAscii.toString.splitOn " ").takeWhile (· != "=>") with
+    | "P" :: rest => out.putStrLn (doArms t' rest)
+    | _ => out.putStrLn s
+  else out.putStrLn s
+  loop arms h out t'
 
-def main : IO Unit := do
+def main (args : List String) : IO Unit := do
   let out ← IO.getStdout
-  loop (← IO.getStdin) out {}
+  loop (args.contains "--arms") (← IO.getStdin) out {}
